@@ -7,6 +7,8 @@ import (
 	"encoding/json"
 	"fmt"
 	"reflect"
+	"strconv"
+	"strings"
 
 	"ebuverif/internal/h"
 	"ebuverif/internal/stores"
@@ -46,8 +48,27 @@ func realCases(thorough bool) []realCase {
 			rec(cur + "d")
 		}
 		rec("")
+		// long runs: the offsets of a store change shape as the log grows (more digits, a new
+		// chunk), and what the bus remembers of the last append must not turn later successful
+		// appends into reported failures
+		l = append(l, realCase{m, "bbbbbbbbbbbb"}, realCase{m, "bbbdbbbbbbbb"}, realCase{m, "dbbbbbbbbbdb"})
 	}
 	return l
+}
+
+// before reports whether offset a precedes offset b in the store's own order. The SQLite
+// store's offsets are decimal row ids that are not zero-padded; that they do not compare
+// as strings is the recorded finding of C10, not a persistence failure, so here they are
+// compared as the numbers they are.
+func before(medium string, a, b eventbus.Offset) bool {
+	if medium == "sqlite" {
+		x, e1 := strconv.ParseInt(string(a), 10, 64)
+		y, e2 := strconv.ParseInt(string(b), 10, 64)
+		if e1 == nil && e2 == nil {
+			return x < y
+		}
+	}
+	return a < b
 }
 
 func runReal(rc realCase) (out []string) {
@@ -114,7 +135,7 @@ func runRealBody(rc realCase) (out []string) {
 		if i == 0 || rc.Hist[i-1] != 'd' {
 			where = "after earlier publishes"
 		}
-		if i > 0 && rc.Hist[:i] == "dddd"[:i] {
+		if i > 0 && strings.Count(rc.Hist[:i], "d") == i {
 			where = "when the first publishes of the store had a cancelled context"
 		}
 		if perr != before {
@@ -143,7 +164,7 @@ func runRealBody(rc realCase) (out []string) {
 		return out
 	}
 	for i, e := range all {
-		if i > 0 && !(all[i-1].Offset < e.Offset) {
+		if i > 0 && !before(rc.Medium, all[i-1].Offset, e.Offset) {
 			bad("%s store: offsets do not keep increasing after failures: %q then %q", rc.Medium, all[i-1].Offset, e.Offset)
 		}
 		rest, ok := readAll(e.Offset)
